@@ -1,12 +1,12 @@
 use super::allocator::BlockStateTracker;
 use super::reader::ColReaderInfo;
 use super::{ReadConsistency, Walrus};
-use crate::wal::block::{Block, Entry, Metadata};
+use crate::wal::block::{Block, Entry, Metadata, decode_metadata};
 use crate::wal::config::{MAX_BATCH_ENTRIES, PREFIX_META_SIZE, checksum64, debug_print};
 use std::io;
 use std::sync::{Arc, RwLock};
 
-use rkyv::{AlignedVec, Deserialize};
+use rkyv::AlignedVec;
 use tracing::info;
 
 #[cfg(target_os = "linux")]
@@ -513,10 +513,9 @@ impl Walrus {
                     // Decode metadata to get read_size
                     let mut aligned = AlignedVec::with_capacity(meta_len);
                     aligned.extend_from_slice(&meta_buf[2..2 + meta_len]);
-                    let archived = unsafe { rkyv::archived_root::<Metadata>(&aligned[..]) };
-                    let meta: Metadata = match archived.deserialize(&mut rkyv::Infallible) {
-                        Ok(m) => m,
-                        Err(_) => {
+                    let meta: Metadata = match decode_metadata(&aligned[..]) {
+                        Some(m) => m,
+                        None => {
                             info!(
                                 "batch_read_for_topic: (stateless) breaking meta deserialize error"
                             );
@@ -717,12 +716,9 @@ impl Walrus {
                     if meta_len > 0 && meta_len <= PREFIX_META_SIZE - 2 {
                         let mut aligned_peek_meta = AlignedVec::with_capacity(meta_len);
                         aligned_peek_meta.extend_from_slice(&meta_buf[2..2 + meta_len]);
-                        let archived_peek_meta =
-                            unsafe { rkyv::archived_root::<Metadata>(&aligned_peek_meta[..]) };
-                        let meta_res: Result<Metadata, _> =
-                            archived_peek_meta.deserialize(&mut rkyv::Infallible);
+                        let meta_res: Option<Metadata> = decode_metadata(&aligned_peek_meta[..]);
                         match meta_res {
-                            Ok(meta) => {
+                            Some(meta) => {
                                 let size1 = meta.read_size;
                                 let required1 = (PREFIX_META_SIZE + size1) as u64;
 
@@ -743,16 +739,11 @@ impl Walrus {
                                             let mut aligned2 = AlignedVec::with_capacity(meta_len2);
                                             aligned2
                                                 .extend_from_slice(&meta_buf2[2..2 + meta_len2]);
-                                            let archived2 = unsafe {
-                                                rkyv::archived_root::<Metadata>(&aligned2[..])
-                                            };
-                                            let meta2_res: Result<Metadata, _> =
-                                                archived2.deserialize(&mut rkyv::Infallible);
-                                            let meta2 = meta2_res
-                                                .expect("infallible metadata deserialize");
-                                            let size2 = meta2.read_size;
-                                            let required2 = (PREFIX_META_SIZE + size2) as u64;
-                                            final_required = required1 + required2;
+                                            if let Some(meta2) = decode_metadata(&aligned2[..]) {
+                                                let size2 = meta2.read_size;
+                                                let required2 = (PREFIX_META_SIZE + size2) as u64;
+                                                final_required = required1 + required2;
+                                            }
                                         }
                                     }
                                 }
@@ -762,7 +753,7 @@ impl Walrus {
                                     want = final_required;
                                 }
                             }
-                            Err(_) => {
+                            None => {
                                 // ignore error, fallback to want
                             }
                         }
@@ -818,10 +809,9 @@ impl Walrus {
 
                         let mut aligned = AlignedVec::with_capacity(meta_len);
                         aligned.extend_from_slice(&meta_buf[2..2 + meta_len]);
-                        let archived = unsafe { rkyv::archived_root::<Metadata>(&aligned[..]) };
-                        let meta: Metadata = match archived.deserialize(&mut rkyv::Infallible) {
-                            Ok(m) => m,
-                            Err(_) => break,
+                        let meta: Metadata = match decode_metadata(&aligned[..]) {
+                            Some(m) => m,
+                            None => break,
                         };
                         let data_size = meta.read_size;
                         let entry_total = (PREFIX_META_SIZE + data_size) as u64;
@@ -1024,10 +1014,9 @@ impl Walrus {
                 let mut aligned = AlignedVec::with_capacity(meta_len);
                 aligned.extend_from_slice(&buffer[buf_offset + 2..buf_offset + 2 + meta_len]);
 
-                let archived = unsafe { rkyv::archived_root::<Metadata>(&aligned[..]) };
-                let meta: Metadata = match archived.deserialize(&mut rkyv::Infallible) {
-                    Ok(m) => m,
-                    Err(_) => {
+                let meta: Metadata = match decode_metadata(&aligned[..]) {
+                    Some(m) => m,
+                    None => {
                         break; // Parse error - stop
                     }
                 };
